@@ -92,10 +92,24 @@ def m_isinstance(interp, args, kwargs):
     if isinstance(obj, SList):
         import collections.abc as cabc
         return any(t in (list, object, cabc.Sequence, cabc.Iterable) for t in tps)
+    if isinstance(obj, SMap):
+        import collections.abc as cabc
+        return any(t in (dict, object, cabc.Mapping, cabc.MutableMapping, cabc.Iterable) for t in tps)
+    if isinstance(obj, SMapProxy):
+        import collections.abc as cabc
+        return any(t in (types.MappingProxyType, object, cabc.Mapping, cabc.Iterable) for t in tps)
     from .interp import Closure, BoundMethod
     if isinstance(obj, (Closure, BoundMethod)):
         return any(t in (object, types.FunctionType) for t in tps)
+    # a model class (pyvc/pymodels) declares the library classes whose instances it stands for
+    stands_for = getattr(type(obj), '_pv_stands_for', None)
+    if stands_for and any(inspect_isclass(t) and issubclass(s, t) for t in tps for s in stands_for):
+        return True
     return isinstance(obj, tp)
+
+
+def inspect_isclass(t):
+    return isinstance(t, type)
 
 
 @model(builtins.len)
@@ -258,6 +272,19 @@ def m_list(interp, args, kwargs):
         src = interp.resolve(src)
     if isinstance(src, SList):
         return slist_copy(interp, src)
+    if isinstance(src, SLazyMap):
+        # interpreted from a Python model; its loop invariant belongs to the call site (spec 'map#k')
+        from .pymodels import functools_model
+        saved = src.frame.model_site
+        src.frame.model_site = src.site
+        try:
+            return interp.call(functools_model.map_list, [src.f, src.xs], {})
+        finally:
+            src.frame.model_site = saved
+    src = as_siter(interp, src)
+    if isinstance(src, SIter):
+        from . import texts
+        return texts.rest_of_iter(interp, src)
     return list(interp.iterate(src))
 
 
@@ -269,10 +296,14 @@ def m_tuple(interp, args, kwargs):
     if isinstance(src, (SOpt, SChoice)):
         src = interp.resolve(src)
     if isinstance(src, SList):
+        from . import seqs
         from .mlist import MList
         if isinstance(src, MList):
-            return src.copy(interp)      # (a later mutation of the list must not show in the tuple)
-        return src
+            # a snapshot that keeps the list measures (str.join, pyvc.api.Measure) of the mutable list
+            c = src.copy(interp)
+            c.immutable = True
+            return c
+        return seqs.frozen(src)
     return tuple(interp.iterate(src))
 
 
@@ -283,6 +314,8 @@ def m_dict(interp, args, kwargs):
         src = args[0]
         if isinstance(src, (SOpt, SChoice)):
             src = interp.resolve(src)
+        if isinstance(src, SMapProxy):
+            src = src.m
         if isinstance(src, SMap):
             if kwargs:
                 raise Unsupported('dict(SMap, **kw)')
@@ -301,6 +334,33 @@ def m_dict(interp, args, kwargs):
                 d[k] = v
     d.update(kwargs)
     return d
+
+
+import copy as _copy
+
+
+@model(_copy.copy)
+def m_copy(interp, args, kwargs):
+    (x,) = args
+    if isinstance(x, (SOpt, SChoice)):
+        x = interp.resolve(x)
+    if isinstance(x, SMap):
+        return x.copy(interp)
+    if isinstance(x, (SInt, SBool, SStr, SList)):
+        return x
+    if isinstance(x, (list, dict, set)):
+        return _copy.copy(x)
+    tp = type(x)
+    if not isinstance(x, (Sym, Opaque, type)) and isinstance(getattr(x, '__dict__', None), dict) \
+            and not hasattr(tp, '__copy__') and tp.__reduce_ex__ is object.__reduce_ex__ \
+            and tp.__reduce__ is object.__reduce__ and not hasattr(tp, '__slots__') and '__getstate__' not in tp.__dict__ and '__setstate__' not in tp.__dict__ \
+            and tp.__module__ != 'builtins':
+        # an instance of a plain class: a new instance with the same attribute values (shallow, as copy.copy)
+        y = object.__new__(tp)
+        y.__dict__.update(x.__dict__)
+        interp.note_new_object(y)
+        return y
+    raise Unsupported('copy.copy of %s' % type(x).__name__)
 
 
 @model(builtins.set)
@@ -359,6 +419,7 @@ def m_enumerate(interp, args, kwargs):
     src = args[0]
     if isinstance(src, (SOpt, SChoice)):
         src = interp.resolve(src)
+    src = as_siter(interp, src)
     if isinstance(src, (SList, SIter)):
         return SEnumerate(src, start)
     return _lazy_enumerate(interp, interp.iterate(src), start)
@@ -376,9 +437,28 @@ def m_zip(interp, args, kwargs):
     return zip(*[interp.iterate(a) for a in args])
 
 
+class SLazyMap:
+    """map(f, xs) over a symbolic-length sequence, not consumed yet"""
+
+    def __init__(self, f, xs, frame, site):
+        self.f, self.xs, self.frame, self.site = f, xs, frame, site
+
+
 @model(builtins.map)
 def m_map(interp, args, kwargs):
     f = args[0]
+    if len(args) == 2:
+        src = args[1]
+        if isinstance(src, (SOpt, SChoice)):
+            src = interp.resolve(src)
+        if isinstance(src, SList):
+            # every map() over a symbolic sequence of a repository frame has an ordinal: 'map#k'
+            for fr in reversed(interp.frame_stack):
+                if not fr.info.filename.endswith('functools_model.py'):
+                    k = getattr(fr, 'map_counter', 0)
+                    fr.map_counter = k + 1
+                    return SLazyMap(f, src, fr, 'map#%d' % k)
+            raise Unsupported('map over a symbolic sequence outside a function')
     its = [interp.iterate(a) for a in args[1:]]
     return (interp.call(f, list(xs), {}) for xs in zip(*its))
 
@@ -449,6 +529,7 @@ def m_iter(interp, args, kwargs):
         x = interp.resolve(x)
     if isinstance(x, SList):
         return SIter(x, 0)
+    x = as_siter(interp, x)
     if isinstance(x, SIter):
         return x
     return interp.iterate(x)
@@ -456,10 +537,18 @@ def m_iter(interp, args, kwargs):
 
 @model(builtins.next)
 def m_next(interp, args, kwargs):
-    it = args[0]
+    it = as_siter(interp, args[0])
     from .interp import GenObj, PyRaise
     if isinstance(it, SIter):
         return it.next(interp, args[1:] if len(args) > 1 else None)
+    if isinstance(it, Opaque):
+        # an iterator known through its interface: `__next__` (may raise StopIteration by its own contract)
+        try:
+            return interp.reg.call_opaque(interp, it, '__next__', [], {})
+        except PyRaise as e:
+            if isinstance(e.exc, StopIteration) and len(args) > 1:
+                return args[1]
+            raise
     if isinstance(it, GenObj):
         try:
             return it.send(None)
@@ -578,14 +667,95 @@ def m_reduce(interp, args, kwargs):
     return acc
 
 
+@model(itertools.takewhile)
+def m_takewhile(interp, args, kwargs):
+    from . import charclass
+    return charclass.m_takewhile(interp, args, kwargs)
+
+
+@model(builtins.range)
+def m_range(interp, args, kwargs):
+    """range with symbolic bounds: a sequence of symbolic length (step must be a concrete positive int)"""
+    args = [interp.resolve(a) if isinstance(a, (SOpt, SChoice)) else a for a in args]
+    if not any(isinstance(a, Sym) for a in args):
+        try:
+            return range(*args)
+        except Exception as e:
+            raise _pyraise(e)
+    if len(args) == 1:
+        start, stop, step = 0, args[0], 1
+    elif len(args) == 2:
+        start, stop, step = args[0], args[1], 1
+    else:
+        start, stop, step = args
+    if not isinstance(step, int) or isinstance(step, bool) or step != 1:
+        raise Unsupported('range with symbolic bounds and step != 1')
+    a, b = to_z3(start), to_z3(stop)
+    n = z3.simplify(z3.If(b > a, b - a, 0))
+    uid = interp.st.fresh_name('range')
+
+    def elem(interp2, idx_term):
+        return wrap(a + idx_term)
+
+    return SList(n, elem, uid)
+
+
+@model(functools.partial)
+def m_partial(interp, args, kwargs):
+    from .interp import PartialObj
+    if not args:
+        raise _pyraise(TypeError("type 'partial' takes at least one argument"))
+    return PartialObj(args[0], args[1:], kwargs)
+
+
+def _chain(interp, parts):
+    """itertools.chain over a concrete number of iterables: when one of them is a sequence of symbolic
+    length the result is their concatenation (an immutable sequence stands for the one-shot iterator:
+    sound as long as it is consumed once -- tuple()/list()/one loop)."""
+    parts = [interp.resolve(p) if isinstance(p, (SOpt, SChoice)) else p for p in parts]
+    if any(isinstance(p, SList) for p in parts):
+        from . import seqs
+        acc = None
+        for p in parts:
+            piece = p if isinstance(p, SList) else list(interp.iterate(p))
+            acc = piece if acc is None else seqs.concat(interp, acc, piece)
+        return acc if isinstance(acc, SList) else iter(acc)
+    return itertools.chain(*[interp.iterate(p) for p in parts])
+
+
+import collections  # noqa: E402
+
+
+@model(collections.deque)
+def m_deque(interp, args, kwargs):
+    """collections.deque without maxlen: a mutable symbolic list that also has popleft / appendleft"""
+    if kwargs or len(args) > 1:
+        raise Unsupported('deque with maxlen')
+    from .mlist import MList, from_concrete
+    from . import seqs
+    if args:
+        src = args[0]
+        if isinstance(src, (SOpt, SChoice)):
+            src = interp.resolve(src)
+        if isinstance(src, (SList, SIter, SEnumerate)):
+            m = MList(interp, interp.st.fresh_name('deque'), None)
+            m.extend(interp, seqs.as_slist(interp, src))
+        else:
+            m = from_concrete(interp, list(interp.iterate(src)), 'deque')
+    else:
+        m = MList(interp, interp.st.fresh_name('deque'), None)
+    m.is_deque = True
+    return m
+
+
 @model(itertools.chain)
 def m_chain(interp, args, kwargs):
-    return itertools.chain(*[interp.iterate(a) for a in args])
+    return _chain(interp, list(args))
 
 
 @model(itertools.chain.from_iterable)
 def m_chain_from_iterable(interp, args, kwargs):
-    return itertools.chain.from_iterable(interp.iterate(a) for a in interp.iterate(args[0]))
+    return _chain(interp, list(interp.iterate(args[0])))
 
 
 for _op in (operator.lt, operator.le, operator.gt, operator.ge, operator.eq, operator.ne):
@@ -616,9 +786,29 @@ def m_str_join(interp, self, args, kwargs):
     src = args[0]
     if isinstance(src, (SOpt, SChoice)):
         src = interp.resolve(src)
-    if isinstance(src, SList):
-        from . import strings
-        return strings.join_slist(interp, self, src)
+    src = as_siter(interp, src)
+    from .mlist import MList
+    if isinstance(src, MList):
+        from . import mlist
+        return mlist.join(interp, self, src)       # list measures of mutable lists (pyvc.mlist); texts.prefix_join agrees
+    if isinstance(src, (SList, SIter)):
+        from . import texts
+        if self != '':
+            # a non-empty separator: the call-site invariant / structural join of pyvc.strings (no prefix measure)
+            from . import strings, seqs
+            return strings.join_slist(interp, self, seqs.as_slist(interp, src))
+        if isinstance(src, SList):
+            from . import loops
+            r = loops.join_slist(interp, self, src)      # a call-site loop spec 'join#k' of the calling function
+            if r is not NotImplemented:
+                return r
+            return texts.join_all(interp, src)
+        return texts.join_iter(interp, src)
+    from . import charclass
+    if isinstance(src, charclass.SCharIter):
+        if isinstance(self, str) and self == '':
+            return src.s
+        raise Unsupported('str.join of the characters of a symbolic string with a non-empty separator')
     items = list(interp.iterate(src))
     if not contains_sym(items, 1) and not isinstance(self, Sym):
         try:
@@ -645,6 +835,22 @@ def m_str_format(interp, self, args, kwargs):
         return SStr(interp.st.fresh_str('fmt'))
     try:
         return self.format(*[_fmt_arg(interp, a) for a in args], **{k: _fmt_arg(interp, v) for k, v in kwargs.items()})
+    except Exception as e:
+        raise _pyraise(e)
+
+
+@method_model(str, 'format_map')
+def m_str_format_map(interp, self, args, kwargs):
+    mapping = args[0]
+    if isinstance(mapping, (SOpt, SChoice)):
+        mapping = interp.resolve(mapping)
+    if not isinstance(mapping, dict):
+        raise Unsupported('str.format_map with %r' % type(mapping).__name__)
+    if contains_sym(mapping, 2) or any(_has_sym_state(a) for a in mapping.values()):
+        # a message with symbolic parts: an unconstrained string (as for str.format)
+        return SStr(interp.st.fresh_str('fmt'))
+    try:
+        return self.format_map({k: _fmt_arg(interp, v) for k, v in mapping.items()})
     except Exception as e:
         raise _pyraise(e)
 
@@ -678,6 +884,106 @@ class _StrBox:
         return format(self.s, spec)
 
 
+# ============================================================================ eval / re
+
+COMMON_EXCEPTIONS = (SyntaxError, ValueError, TypeError, NameError, ZeroDivisionError, OverflowError, AttributeError,
+                     KeyError, IndexError, RecursionError)
+
+# canonical source text per exception class of eval (for replays)
+EVAL_WITNESS = {
+    'SyntaxError': '1 +', 'ValueError': "int('x')", 'TypeError': "1 + ''", 'NameError': 'x',
+    'ZeroDivisionError': '1//0', 'OverflowError': '2.0**10000', 'AttributeError': '(1).x', 'KeyError': '{}[1]',
+    'IndexError': '[][0]', 'RecursionError': "(lambda f: f(f))(lambda f: f(f))", 'ArbitraryException': '1//0',
+}
+
+
+def arbitrary_exception(interp, classes=COMMON_EXCEPTIONS, with_arbitrary=True):
+    """One of the given exception classes, or `ArbitraryException` (any other Exception), chosen
+    non-deterministically; its message is an arbitrary string."""
+    from .interp import ArbitraryException
+    classes = list(classes) + ([ArbitraryException] if with_arbitrary else [])
+    cls = classes[interp.st.choose(len(classes))]
+    msg = SStr(interp.st.fresh_str('exception.message'))
+    e = cls.__new__(cls)
+    e.args = (msg,)
+    if issubclass(cls, (SyntaxError, re_error())):
+        e.msg = msg
+    return e
+
+
+def re_error():
+    import re
+    return re.error
+
+
+@model(builtins.eval)
+def m_eval(interp, args, kwargs):
+    """eval of an arbitrary expression text: any value, or any Exception (not modelled: non-termination,
+    side effects of the expression)."""
+    st = interp.st
+    if st.choose(2) == 1:
+        raise _pyraise(arbitrary_exception(interp))
+    k = st.choose(5)
+    if k == 0:
+        return SInt(st.fresh_int('eval.int'))
+    if k == 1:
+        return SBool(st.fresh_bool('eval.bool'))
+    if k == 2:
+        return SStr(st.fresh_str('eval.str'))
+    if k == 3:
+        return None
+    return OpaqueVal(st.fresh_name('eval.value'))       # a float, a list, a function, ...
+
+
+# ============================================================================ stat
+
+def _stat_models():
+    import stat as _stat
+
+    def mk(name, others):
+        def m(interp, args, kwargs):
+            (mode,) = args
+            if isinstance(mode, (SOpt, SChoice)):
+                mode = interp.resolve(mode)
+            if not isinstance(mode, SInt):
+                try:
+                    return getattr(_stat, name)(mode)
+                except Exception as e:      # e.g. OverflowError for a negative mode
+                    raise _pyraise(e)
+            f = z3.Function('stat.' + name, z3.IntSort(), z3.BoolSort())
+            for o in others:     # the file types are mutually exclusive
+                g = z3.Function('stat.' + o, z3.IntSort(), z3.BoolSort())
+                interp.st.assume(z3.Not(z3.And(f(mode.t), g(mode.t))))
+            return wrap(f(mode.t))
+
+        return m
+
+    names = ('S_ISREG', 'S_ISDIR', 'S_ISLNK', 'S_ISFIFO', 'S_ISSOCK', 'S_ISCHR', 'S_ISBLK')
+    for n in names:
+        MODELS[getattr(_stat, n)] = mk(n, [o for o in names if o != n])
+
+
+_stat_models()
+
+
+# ============================================================================ xml.etree.ElementTree
+
+def _etree_models():
+    from xml.etree import ElementTree as ET
+    from .pymodels import etree_model
+
+    MODELS[ET.Element] = lambda interp, args, kwargs: interp.call(etree_model.Element, args, kwargs)
+    MODELS[ET.SubElement] = lambda interp, args, kwargs: interp.call(etree_model.SubElement, args, kwargs)
+
+    def tree(interp, args, kwargs):
+        return interp.call(etree_model.ElementTree, args, kwargs)
+
+    MODELS[ET.ElementTree] = tree
+
+
+_etree_models()
+
+
 # ============================================================================ methods on symbolic values
 
 def call_sym_method(interp, recv, name, args, kwargs):
@@ -696,6 +1002,14 @@ def call_sym_method(interp, recv, name, args, kwargs):
         return strings.call_method(interp, recv, name, args, kwargs)
     if isinstance(recv, SList):
         return slist_method(interp, recv, name, args, kwargs)
+    if isinstance(recv, SIter):
+        return recv.call_method(interp, name, args, kwargs)
+    if isinstance(recv, SMap):
+        return smap_method(interp, recv, name, args, kwargs)
+    if isinstance(recv, SMapProxy):
+        if name not in _PROXY_READS:
+            raise _pyraise(AttributeError("'mappingproxy' object has no attribute %r" % name))
+        return smap_method(interp, recv.m, name, args, kwargs)
     if isinstance(recv, SInt):
         if name == 'bit_length':
             raise Unsupported('bit_length')
@@ -708,12 +1022,18 @@ def sym_getitem(interp, obj, idx):
         return strings.getitem(interp, obj, idx)
     if isinstance(obj, SList):
         return slist_getitem(interp, obj, idx)
+    if isinstance(obj, SMap):
+        return obj.getitem(interp, idx)
+    if isinstance(obj, SMapProxy):
+        return obj.m.getitem(interp, idx)
     raise Unsupported('getitem on %r' % (obj,))
 
 
 # ============================================================================ symbolic sequences
 
 def slist_elem(interp, xs, idx_term):
+    if xs.volatile:
+        return xs.elem(interp, idx_term if not isinstance(idx_term, int) else z3.IntVal(idx_term))
     key = z3.simplify(idx_term).sexpr() if not isinstance(idx_term, int) else str(idx_term)
     v = xs.cache.get(key)
     if v is None:
@@ -749,10 +1069,8 @@ def slist_iter(interp, xs):
 
 
 def slist_copy(interp, xs):
-    from .mlist import MList
-    if isinstance(xs, MList):
-        return xs.copy(interp)
-    return xs
+    from . import texts
+    return texts.copy_slist(interp, xs)
 
 
 def slist_binop(interp, opcls, a, b):
@@ -783,11 +1101,17 @@ def slist_comprehension(interp, xs, gens, i, child, emit):
 class SIter:
     """Iterator over an SList: (sequence, position) cell."""
 
-    def __init__(self, xs, pos):
+    def __init__(self, xs, pos, eager=False):
         self.xs = xs
         self.pos = pos      # int or z3 term
+        # eager: stands for a generator that is used through its contract -- all its items and effects at the
+        # call.  Equivalent to the lazy generator only if it is consumed completely, which is checked where it
+        # is consumed (loop without early exit, list()/deque()/sorted()..., never next()).
+        self.eager = eager
 
     def next(self, interp, default):
+        if self.eager:
+            raise Unsupported('next() on a generator that is used through its contract (items and effects at the call)')
         p = to_z3(self.pos) if not isinstance(self.pos, int) else z3.IntVal(self.pos)
         if interp.st.fork(wrap(p < self.xs.length)):
             v = slist_elem(interp, self.xs, p)
@@ -797,6 +1121,26 @@ class SIter:
             return default[0]
         raise _pyraise(StopIteration())
 
+    def call_method(self, interp, name, args, kwargs):
+        if name == '__iter__':
+            return self
+        if name == '__next__':
+            return self.next(interp, None)
+        raise Unsupported('method %s on an iterator over a symbolic-length sequence' % name)
+
+
+def as_siter(interp, v):
+    """The (sequence, position) cell behind an object that is its own iterator (e.g. a text file opened
+    for reading, modelled as an opaque object whose interface gives `__pv_iter__`); other values unchanged."""
+    if isinstance(v, (SOpt, SChoice)):
+        v = interp.resolve(v)
+    if isinstance(v, Opaque):
+        from .api import _iface_lookup
+        m = _iface_lookup(v._pv_iface, 'methods', '__iter__')
+        if m is not None:
+            return interp.reg.call_opaque(interp, v, '__iter__', [], {})
+    return v
+
 
 class SEnumerate:
     def __init__(self, src, start):
@@ -805,80 +1149,468 @@ class SEnumerate:
 
 
 class SMap:
-    """Symbolic finite map (dict view): z3 arrays ``has: K -> Bool`` and ``val: K -> V``."""
+    """Symbolic finite map (dict view): z3 arrays ``has: K -> Bool`` and ``val: K -> V``.
 
-    def __init__(self, ksort, vsort, has, val, uid, vwrap=None):
-        self.ksort = ksort
-        self.vsort = vsort
+    Canonical form: ``val[k]`` is the default of the value sort wherever ``has[k]`` is false, so that
+    equality of the two arrays is dict equality.  The canonical-form fact is instantiated at every
+    key an operation touches (`_touch`); all operations preserve it.
+
+    ``kty`` / ``vty`` are the shapes of keys / values (Str, Int, Bool; values may also be ``Iface`` of a
+    by-id interface: the array then holds the object ids).
+
+    Keys may also be opaque objects whose interface names the attribute that decides their equality
+    (``map_key = 'ident'``: the model of ``__eq__`` / ``__hash__``).  With a value shape that has no scalar
+    sort (``Any_``, an interface that is not by-id, ``None``) the values are NOT tracked (``val is None``):
+    only the key set is symbolic, a read gives an arbitrary value of that shape."""
+
+    def __init__(self, kty, vty, has, val, uid):
+        self.kty = kty
+        self.vty = vty
         self.has = has
         self.val = val
         self.uid = uid
 
+    # ----- sorts / conversion
+    @property
+    def ksort(self):
+        return scalar_sort(self.kty)
+
+    @property
+    def vsort(self):
+        return scalar_sort(self.vty)
+
+    @property
+    def untracked(self):
+        return self.val is None
+
+    def _fresh_value(self, interp):
+        from .api import Ty
+        if isinstance(self.vty, Ty):
+            return self.vty.make(interp, self.uid + '[]')
+        return OpaqueVal(interp.st.fresh_name(self.uid + '[]'))
+
+    @staticmethod
+    def _key_value(interp, k):
+        """the value that decides the equality of a key: the key itself, or the `map_key` attribute of an
+        opaque object"""
+        if isinstance(k, (SOpt, SChoice)):
+            k = interp.resolve(k)
+        if isinstance(k, Opaque) and getattr(k._pv_iface, 'map_key', None):
+            k = interp.getattr(k, k._pv_iface.map_key)
+        return k
+
+    def _key(self, interp, k):
+        k = self._key_value(interp, k)
+        try:
+            t = to_z3(k)
+        except TypeError:
+            raise Unsupported('symbolic map: key %r' % (k,))
+        if t.sort() != self.ksort:
+            raise Unsupported('symbolic map: key of sort %s in a map with %s keys' % (t.sort(), self.ksort))
+        return t
+
+    def _unwrap(self, interp, v):
+        if self.val is None:
+            return None
+        if isinstance(v, (SOpt, SChoice)):
+            v = interp.resolve(v)
+        t = term_of_value(v)
+        if t is None or t.sort() != self.vsort:
+            raise Unsupported('symbolic map: cannot store value %r' % (v,))
+        return t
+
+    def _wrap(self, interp, t):
+        if self.val is None:
+            return self._fresh_value(interp)
+        return value_of_term(interp, self.vty, t)
+
+    def _touch(self, interp, kt):
+        if self.val is None:
+            return
+        interp.st.assume(z3.Or(z3.Select(self.has, kt), z3.Select(self.val, kt) == default_term(self.vty)))
+
+    # ----- operations
     def copy(self, interp):
-        return SMap(self.ksort, self.vsort, self.has, self.val, interp.st.fresh_name(self.uid + '.copy'))
+        return SMap(self.kty, self.vty, self.has, self.val, interp.st.fresh_name(self.uid + '.copy'))
 
     def contains(self, interp, k):
-        return wrap(z3.Select(self.has, to_z3(k)))
+        k = self._key_value(interp, k)
+        try:
+            t = to_z3(k)
+        except TypeError:
+            return False
+        if t.sort() != self.ksort:
+            return False
+        return wrap(z3.Select(self.has, t))
 
     def getitem(self, interp, k):
-        kt = to_z3(k)
+        kt = self._key(interp, k)
         if not interp.st.fork(wrap(z3.Select(self.has, kt))):
             raise _pyraise(KeyError(k if not isinstance(k, Sym) else '<symbolic>'))
-        return wrap(z3.Select(self.val, kt))
+        return self._wrap(interp, None if self.val is None else z3.Select(self.val, kt))
 
     def get(self, interp, k, default=None):
-        kt = to_z3(k)
-        if interp.st.fork(wrap(z3.Select(self.has, kt))):
-            return wrap(z3.Select(self.val, kt))
+        kt = self._key(interp, k)
+        h = wrap(z3.Select(self.has, kt))
+        # merge `get(k, default)` into one term when the default is a scalar of the value sort
+        dt = term_of_value(default) if default is not None and self.val is not None else None
+        if dt is not None and dt.sort() == self.vsort and not isinstance(h, bool) and not is_object_shape(self.vty):
+            return wrap(z3.If(h.t, z3.Select(self.val, kt), dt))
+        if interp.st.fork(h):
+            return self._wrap(interp, None if self.val is None else z3.Select(self.val, kt))
         return default
 
     def setitem(self, interp, k, v):
-        kt = to_z3(k)
+        kt = self._key(interp, k)
+        vt = self._unwrap(interp, v)
         self.has = z3.Store(self.has, kt, z3.BoolVal(True))
-        self.val = z3.Store(self.val, kt, to_z3(v))
+        if self.val is not None:
+            self.val = z3.Store(self.val, kt, vt)
+
+    def _remove(self, interp, kt):
+        self.has = z3.Store(self.has, kt, z3.BoolVal(False))
+        if self.val is not None:
+            self.val = z3.Store(self.val, kt, default_term(self.vty))
 
     def delitem(self, interp, k):
-        kt = to_z3(k)
+        kt = self._key(interp, k)
         if not interp.st.fork(wrap(z3.Select(self.has, kt))):
             raise _pyraise(KeyError('<symbolic>'))
-        self.has = z3.Store(self.has, kt, z3.BoolVal(False))
+        self._remove(interp, kt)
 
     def pop(self, interp, k, *default):
-        kt = to_z3(k)
+        kt = self._key(interp, k)
         if interp.st.fork(wrap(z3.Select(self.has, kt))):
-            v = wrap(z3.Select(self.val, kt))
-            self.has = z3.Store(self.has, kt, z3.BoolVal(False))
+            v = self._wrap(interp, None if self.val is None else z3.Select(self.val, kt))
+            self._remove(interp, kt)
             return v
         if default:
             return default[0]
         raise _pyraise(KeyError('<symbolic>'))
 
+    def setdefault(self, interp, k, default=None):
+        kt = self._key(interp, k)
+        if interp.st.fork(wrap(z3.Select(self.has, kt))):
+            return self._wrap(interp, None if self.val is None else z3.Select(self.val, kt))
+        self.setitem(interp, k, default)
+        return default
+
+    def clear(self, interp):
+        self.has = z3.K(self.ksort, z3.BoolVal(False))
+        if self.val is not None:
+            self.val = z3.K(self.ksort, default_term(self.vty))
+
+    def update(self, interp, other):
+        if isinstance(other, (SOpt, SChoice)):
+            other = interp.resolve(other)
+        if isinstance(other, SMap):
+            if self.val is None or other.val is None:
+                raise Unsupported('symbolic map: update of / with a map whose values are not tracked')
+            if other.ksort != self.ksort or other.vsort != self.vsort:
+                raise Unsupported('symbolic map: update with a map of other sorts')
+            k = z3.Const(interp.st.fresh_name('k!upd'), self.ksort)
+            oh = z3.Select(other.has, k)
+            self.has, self.val = (z3.Lambda([k], z3.Or(z3.Select(self.has, k), oh)),
+                                  z3.Lambda([k], z3.If(oh, z3.Select(other.val, k), z3.Select(self.val, k))))
+            return
+        if isinstance(other, dict) or type(other).__name__ == 'mappingproxy':
+            for k2, v2 in other.items():
+                self.setitem(interp, k2, v2)
+            return
+        for item in interp.iterate(other):
+            k2, v2 = list(interp.iterate(item))
+            self.setitem(interp, k2, v2)
+
+    def eq(self, interp, other):
+        if other is self:
+            return True
+        if self.val is None or (isinstance(other, SMap) and other.val is None):
+            raise Unsupported('symbolic map: == on a map whose values are not tracked')
+        if isinstance(other, SMap):
+            if other.ksort != self.ksort or other.vsort != self.vsort:
+                raise Unsupported('symbolic map: == between maps of different sorts')
+            return wrap(z3.And(self.has == other.has, self.val == other.val))
+        if isinstance(other, dict):
+            m = SMap(self.kty, self.vty, z3.K(self.ksort, z3.BoolVal(False)),
+                     z3.K(self.ksort, default_term(self.vty)), 'lit')
+            m.update(interp, other)
+            return self.eq(interp, m)
+        return False
+
+    def havoc(self, interp, tag):
+        base = interp.st.fresh_name('%s@%s' % (self.uid, tag))
+        self.has = z3.Const(base + '.has', z3.ArraySort(self.ksort, z3.BoolSort()))
+        if self.val is not None:
+            self.val = z3.Const(base + '.val', z3.ArraySort(self.ksort, self.vsort))
+
+    def terms(self):
+        return [self.has, self.val] if self.val is not None else [self.has]
+
+
+def has_scalar_sort(ty):
+    try:
+        scalar_sort(ty)
+        return True
+    except Unsupported:
+        return False
+
+
+def new_smap(interp, name, kty, vty):
+    uid = interp.st.fresh_name(name)
+    ks = scalar_sort(kty)
+    has = z3.Const(uid + '.has', z3.ArraySort(ks, z3.BoolSort()))
+    if not has_scalar_sort(vty):
+        return SMap(kty, vty, has, None, uid)        # values not tracked
+    return SMap(kty, vty, has, z3.Const(uid + '.val', z3.ArraySort(ks, scalar_sort(vty))), uid)
+
+
+def smap_of_dict(interp, kty, vty, d, name='dict'):
+    m = SMap(kty, vty, z3.K(scalar_sort(kty), z3.BoolVal(False)),
+             z3.K(scalar_sort(kty), default_term(vty)) if has_scalar_sort(vty) else None,
+             interp.st.fresh_name(name))
+    m.update(interp, d)
+    return m
+
+
+def is_object_shape(ty):
+    from .api import Iface
+    return isinstance(ty, Iface)
+
+
+def scalar_sort(ty):
+    from .api import _Int, _Bool, _Str, Iface
+    if isinstance(ty, _Int):
+        return z3.IntSort()
+    if isinstance(ty, _Bool):
+        return z3.BoolSort()
+    if isinstance(ty, _Str):
+        return z3.StringSort()
+    if isinstance(ty, Iface):
+        if not getattr(ty.resolved(), 'by_id', False):
+            raise Unsupported('objects in a symbolic map must be of a by-id interface')
+        return z3.IntSort()
+    raise Unsupported('no scalar sort for shape %r' % (ty,))
+
+
+def default_term(ty):
+    s = scalar_sort(ty)
+    if s == z3.IntSort():
+        return z3.IntVal(0)
+    if s == z3.BoolSort():
+        return z3.BoolVal(False)
+    return z3.StringVal('')
+
+
+def term_of_value(v):
+    """z3 term standing for a value that can be stored in a map / passed to a pure ghost function:
+    scalars, and objects of by-id interfaces (their id).  None if there is none."""
+    if isinstance(v, Opaque):
+        if getattr(v._pv_iface, 'by_id', False) and len(v._pv_index) == 1:
+            return v._pv_index[0]
+        return None
+    if isinstance(v, (SOpt, SChoice, SList)):
+        return None
+    try:
+        return to_z3(v)
+    except TypeError:
+        return None
+
+
+def value_of_term(interp, ty, t):
+    from .api import Iface, opaque_of_id
+    if isinstance(ty, Iface):
+        return opaque_of_id(interp, ty.resolved(), t)
+    return wrap(t)
+
+
+def smap_method(interp, m, name, args, kwargs):
+    if kwargs and name != 'update':
+        raise Unsupported('symbolic map: %s with keyword arguments' % name)
+    if name == 'get':
+        return m.get(interp, *args)
+    if name == 'pop':
+        return m.pop(interp, *args)
+    if name == 'copy':
+        return m.copy(interp)
+    if name == 'setdefault':
+        return m.setdefault(interp, *args)
+    if name == 'clear':
+        return m.clear(interp)
+    if name == 'update':
+        for a in args:
+            m.update(interp, a)
+        if kwargs:
+            m.update(interp, kwargs)
+        return None
+    if name == '__contains__':
+        return m.contains(interp, args[0])
+    if name == '__getitem__':
+        return m.getitem(interp, args[0])
+    if name == '__setitem__':
+        return m.setitem(interp, args[0], args[1])
+    if name == '__delitem__':
+        return m.delitem(interp, args[0])
+    if name == 'keys':
+        return SMapKeys(m)
+    raise Unsupported('method %s on symbolic map' % name)
+
+
+class SMapProxy:
+    """types.MappingProxyType over a symbolic map: a live read-only view."""
+
+    def __init__(self, m):
+        self.m = m
+
+
+@model(types.MappingProxyType)
+def m_mappingproxy(interp, args, kwargs):
+    (x,) = args
+    if isinstance(x, (SOpt, SChoice)):
+        x = interp.resolve(x)
+    if isinstance(x, SMap):
+        return SMapProxy(x)
+    if isinstance(x, SMapProxy):
+        return SMapProxy(x.m)
+    try:
+        return types.MappingProxyType(x)
+    except Exception as e:
+        raise _pyraise(e)
+
+
+_PROXY_READS = ('get', 'copy', '__contains__', '__getitem__', 'keys')
+
+
+class SMapKeys:
+    """`d.keys()` of a symbolic map: supports only membership."""
+
+    def __init__(self, m):
+        self.m = m
+
+
+def havoc_mutable(interp, v, tag, depth=3):
+    """Forget the contents of the mutable symbolic state reachable from ``v`` (in place)."""
+    if isinstance(v, SMap):
+        v.havoc(interp, tag)
+        return True
+    if isinstance(v, SOpt):
+        return havoc_mutable(interp, v.val, tag, depth)
+    if isinstance(v, SMapProxy):
+        return False        # a read-only view: the map is changed through the map itself
+    done = False
+    if depth > 0 and not isinstance(v, (Sym, Opaque, OpaqueVal, type, types.ModuleType, types.FunctionType)):
+        d = getattr(v, '__dict__', None)
+        if isinstance(d, dict):
+            for x in list(d.values()):
+                done = havoc_mutable(interp, x, tag, depth - 1) or done
+    return done
+
+
+def reachable_smaps(v, depth=3, path='', out=None, seen=None):
+    """(path, SMap) pairs reachable from ``v`` through instance attributes."""
+    out = [] if out is None else out
+    seen = set() if seen is None else seen
+    if id(v) in seen:
+        return out
+    seen.add(id(v))
+    if isinstance(v, SMap):
+        out.append((path, v))
+    elif isinstance(v, SOpt):
+        reachable_smaps(v.val, depth, path + '?', out, seen)
+    elif isinstance(v, SMapProxy):
+        reachable_smaps(v.m, depth, path + '.<view>', out, seen)
+    elif depth > 0 and not isinstance(v, (Sym, Opaque, OpaqueVal, type, types.ModuleType, types.FunctionType)):
+        d = getattr(v, '__dict__', None)
+        if isinstance(d, dict):
+            for k, x in d.items():
+                reachable_smaps(x, depth - 1, '%s.%s' % (path, k), out, seen)
+    return out
+
 
 # ============================================================================ quantifiers (spec level)
 
+MAX_QUANT_LEAVES = 256
+
+
 def _quant(interp, args, is_forall):
+    from .path import QFrame
     lo, hi, pred = args
     st = interp.st
     j = st.fresh_int('j')
     lo_t, hi_t = to_z3(lo), to_z3(hi)
     rng = z3.And(lo_t <= j, j < hi_t)
+    return _quant_over(interp, j, SInt(j), rng, pred, is_forall)
+
+
+def q_forall_keys(interp, args, kwargs):
+    """forall_keys(d, pred): pred(k) holds for every key k of the symbolic map d."""
+    m, pred = args
+    if isinstance(m, (SOpt, SChoice)):
+        m = interp.resolve(m)
+    if isinstance(m, SMapProxy):
+        m = m.m
+    if not isinstance(m, SMap):
+        for k in list(interp.iterate(m)):
+            if not interp.branch(interp.call(pred, [k], {})):
+                return False
+        return True
+    st = interp.st
+    if m.ksort == z3.StringSort():
+        k = st.fresh_str('k')
+    elif m.ksort == z3.IntSort():
+        k = st.fresh_int('k')
+    else:
+        raise Unsupported('forall_keys over keys of sort %s' % m.ksort)
+    return _quant_over(interp, k, wrap(k), z3.Select(m.has, k), pred, True)
+
+
+def _quant_over(interp, j, j_value, rng, pred, is_forall):
+    from .path import QFrame
+    st = interp.st
     st.no_fork += 1
     n_pc = len(st.pc)
     n_fresh = len(st.fresh_log)
     st.solver.push()
+    leaves = []
     st.side_conditions.append([])
     try:
-        with st.scope(rng):
-            if st.check() == z3.unsat:
-                body = True if is_forall else False
-            else:
-                body = interp.truth(interp.call(pred, [SInt(j)], {}))
+        work = [[]]
+        while work:
+            qf = QFrame(work.pop())
+            st.qframes.append(qf)
+            n_sc = len(st.scopes)
+            try:
+                with st.scope(rng):
+                    if st.infeasible_site():
+                        v = True if is_forall else False
+                    elif qf.prefix:
+                        # a case combination in which the body raises: the body does not hold there
+                        # (natively the clause would raise, i.e. fail); without local case split the
+                        # exception propagates as before
+                        from .interp import PyRaise
+                        try:
+                            v = interp.truth(interp.call(pred, [j_value], {}))
+                        except PyRaise:
+                            v = False
+                    else:
+                        v = interp.truth(interp.call(pred, [j_value], {}))
+            finally:
+                del st.scopes[n_sc:]
+                st.qframes.pop()
+            leaves.append(([c for (c, _d) in qf.decisions], v))
+            work.extend(qf.pending)
+            if len(leaves) > MAX_QUANT_LEAVES:
+                raise Unsupported('more than %d case combinations inside a quantifier body' % MAX_QUANT_LEAVES)
     finally:
         st.no_fork -= 1
         st.solver.pop()
         learned = st.pc[n_pc:]
         del st.pc[n_pc:]
         side = st.side_conditions.pop()
+    if len(leaves) == 1 and not leaves[0][0]:
+        body = leaves[0][1]
+    else:
+        # the case conditions of the local runs partition the space: merge the values
+        body = wrap(z3.Or(*[z3.And(*(conds + [to_z3(v)])) for (conds, v) in leaves]))
     if side:
         body = wrap(z3.And(*(side + [to_z3(body)])))
     # facts assumed about the element at the arbitrary index j hold for every index
@@ -888,7 +1620,7 @@ def _quant(interp, args, is_forall):
     created = [c for c in st.fresh_log[n_fresh:] if not c.eq(j)]
     subst = []
     for c in created:
-        f = z3.Function(c.decl().name() + '@', z3.IntSort(), c.sort())
+        f = z3.Function(c.decl().name() + '@', j.sort(), c.sort())
         subst.append((c, f(j)))
     bt = to_z3(body)
     if subst:
@@ -980,10 +1712,295 @@ def m_all_keys(interp, args, kwargs):
             if k not in out:
                 out.append(k)
     return out
+def _prefix_fun(interp, args, is_count):
+    """sum_prefix(xs, k, f) / count_prefix(xs, k, pred): the value P(k) of the prefix function of the
+    sequence, with the definition unfolded at k:  P(0) = 0,  P(k) = P(k-1) + f(xs[k-1])  for 0 < k <= len.
+    Sound for sequences that only grow at the end (append): elements below an index never change."""
+    xs, k, f = args[:3]
+    extra = list(args[3:])       # further (fixed) arguments of f
+    st = interp.st
+    if isinstance(xs, (SOpt, SChoice)):
+        xs = interp.resolve(xs)
+    if isinstance(k, (SOpt, SChoice)):
+        k = interp.resolve(k)
+
+    def value_at(x):
+        v = interp.call(f, [x] + extra, {})
+        if is_count:
+            t = interp.truth(v)
+            return 1 if t is True else 0 if t is False else wrap(z3.If(t.t, 1, 0))
+        if isinstance(v, (SOpt, SChoice)):
+            v = interp.resolve(v)
+        if isinstance(v, (bool, SBool)):
+            return wrap(z3.If(to_z3(v), 1, 0))
+        if not isinstance(v, (int, SInt)):
+            raise Unsupported('sum_prefix: summand is not an integer')
+        return v
+
+    if not isinstance(xs, SList):
+        if isinstance(k, Sym):
+            raise Unsupported('sum_prefix over a concrete sequence with symbolic bound')
+        acc = 0
+        for x in list(interp.iterate(xs))[:k]:
+            acc = interp.binop(ast.Add, acc, value_at(x))
+        return acc
+    if not isinstance(f, types.FunctionType) or f.__closure__:
+        raise Unsupported('sum_prefix/count_prefix need a module-level function (no lambda/closure)')
+    base, idx = xs.ident if xs.ident is not None else (xs.uid, ())
+    name = '%s<%s|%s.%s>' % ('count' if is_count else 'sum', base, f.__module__, f.__qualname__)
+    idx = list(idx)
+    for e in extra:      # the prefix function also depends on the extra arguments
+        if isinstance(e, (SOpt, SChoice)):
+            e = interp.resolve(e)
+        if isinstance(e, (SInt, SBool, SStr, int, str, bool)):
+            idx.append(to_z3(e))
+        elif isinstance(e, Opaque):
+            name += '|' + e._pv_uid
+            idx.extend(e._pv_index)
+        else:
+            raise Unsupported('sum_prefix/count_prefix: extra argument %r' % (e,))
+    fn = z3.Function(name, *([x.sort() for x in idx] + [z3.IntSort(), z3.IntSort()]))
+    P = lambda t: fn(*(idx + [t]))
+    kt = to_z3(k)
+    st.assume(P(z3.IntVal(0)) == 0)
+    if not (isinstance(k, int) and k <= 0):
+        in_range = z3.And(kt > 0, kt <= xs.length)
+        with st.scope(in_range):
+            if not st.infeasible_site():
+                v = value_at(slist_elem(interp, xs, z3.simplify(kt - 1)))
+                st.assume(P(kt) == P(kt - 1) + to_z3(v))
+        if is_count:
+            # consequences of the definition by induction on k (trusted lemmas, DESIGN 2.5):
+            # bounds, and a count never decreases
+            st.assume(z3.Implies(z3.And(kt >= 0, kt <= xs.length), z3.And(P(kt) >= 0, P(kt) <= kt)))
+            lemma_key = ('count-monotone', name)
+            if lemma_key not in st.ghost:
+                st.ghost[lemma_key] = True
+                a, b = z3.Int(name + '!a'), z3.Int(name + '!b')
+                st._add(z3.ForAll([a, b], z3.Implies(z3.And(0 <= a, a <= b, b <= xs.length), P(a) <= P(b))))
+    return wrap(P(kt))
+
+
+def q_sum_prefix(interp, args, kwargs):
+    return _prefix_fun(interp, args, False)
+
+
+def q_count_prefix(interp, args, kwargs):
+    return _prefix_fun(interp, args, True)
+
+
+def q_nat_of_str(interp, args, kwargs):
+    """SMT-LIB str.to_int: the number denoted by a non-empty string of ASCII digits, else -1."""
+    (s,) = args
+    if isinstance(s, (SOpt, SChoice)):
+        s = interp.resolve(s)
+    if isinstance(s, str):
+        return int(s) if s != '' and all(c in '0123456789' for c in s) else -1
+    if not isinstance(s, SStr):
+        raise Unsupported('nat_of_str of a non-string')
+    return wrap(z3.StrToInt(s.t))
+
+
+def q_keys_subset(interp, args, kwargs):
+    a, b = args
+    if isinstance(a, dict) and isinstance(b, dict):
+        return all(k in b for k in a)
+    if isinstance(a, dict) and isinstance(b, SMap):
+        parts = [to_z3(b.contains(interp, k)) for k in a]
+        return wrap(z3.And(*parts)) if parts else True
+    if not (isinstance(a, SMap) and isinstance(b, SMap)):
+        raise Unsupported('keys_subset of %r, %r' % (type(a).__name__, type(b).__name__))
+    y = z3.Const(interp.st.fresh_name('key'), a.ksort)
+    return wrap(z3.ForAll([y], z3.Implies(z3.Select(a.has, y), z3.Select(b.has, y))))
+
+
+# ============================================================================ prefix folds (ghost history functions)
+
+def _fold_sig(v):
+    """(signature string, shape) of a fold state: scalars, symbolic maps, by-id objects, tuples of these."""
+    if isinstance(v, SMap):
+        return 'map(%s|%s)' % (z3.simplify(v.has).sexpr(), z3.simplify(v.val).sexpr()), ('map', v.kty, v.vty)
+    if isinstance(v, tuple):
+        parts = [_fold_sig(x) for x in v]
+        return '(%s)' % ','.join(p[0] for p in parts), ('tuple', [p[1] for p in parts])
+    if isinstance(v, Opaque):
+        t = term_of_value(v)
+        if t is None:
+            raise Unsupported('prefix_fold: state holds an object without id')
+        return 'obj(%s)' % z3.simplify(t).sexpr(), ('obj', v._pv_iface)
+    t = term_of_value(v)
+    if t is None:
+        raise Unsupported('prefix_fold: state of unsupported shape %r' % (v,))
+    return z3.simplify(t).sexpr(), ('scalar', t.sort())
+
+
+def _fold_value(interp, name, shape, t):
+    """The value of the fold function ``name`` at index term ``t``."""
+    kind = shape[0]
+    if kind == 'scalar':
+        return wrap(z3.Function(name, z3.IntSort(), shape[1])(t))
+    if kind == 'obj':
+        from .api import opaque_of_id
+        return opaque_of_id(interp, shape[1], z3.Function(name, z3.IntSort(), z3.IntSort())(t))
+    if kind == 'map':
+        ks, vs = scalar_sort(shape[1]), scalar_sort(shape[2])
+        has = z3.Function(name + '.has', z3.IntSort(), z3.ArraySort(ks, z3.BoolSort()))(t)
+        val = z3.Function(name + '.val', z3.IntSort(), z3.ArraySort(ks, vs))(t)
+        return SMap(shape[1], shape[2], has, val, '%s(%s)' % (name, z3.simplify(t).sexpr()))
+    if kind == 'tuple':
+        return tuple(_fold_value(interp, '%s.%d' % (name, i), sh, t) for i, sh in enumerate(shape[1]))
+    raise AssertionError(kind)
+
+
+def _fold_equal(interp, a, b):
+    if isinstance(a, tuple):
+        if not isinstance(b, tuple) or len(a) != len(b):
+            raise Unsupported('prefix_fold: the step function changes the shape of the state')
+        ts = [to_z3(_fold_equal(interp, x, y)) for x, y in zip(a, b)]
+        return wrap(z3.And(*ts)) if ts else True
+    if isinstance(a, SMap):
+        if not isinstance(b, SMap):
+            raise Unsupported('prefix_fold: the step function changes the shape of the state')
+        return a.eq(interp, b)
+    if isinstance(a, Opaque):
+        ta, tb = term_of_value(a), term_of_value(b)
+        if ta is None or tb is None:
+            raise Unsupported('prefix_fold: the step function changes the shape of the state')
+        return wrap(ta == tb)
+    return interp.eq(a, b)
+
+
+def m_prefix_fold(interp, args, kwargs):
+    """``prefix_fold(f, init, xs, i)`` = f(...f(f(init, xs[0]), xs[1])..., xs[i-1])  over a symbolic-length xs.
+
+    The value is the application F(i) of an uninterpreted function determined by (f, init, xs).  The
+    defining equations  F(0) = init  and  F(i) = f(F(i-1), xs[i-1])  for 0 < i <= len(xs)  are
+    instantiated at the index terms the clauses mention: the first whenever i may be 0, the second
+    where 0 < i <= len(xs) is entailed by the path condition (e.g. at `_i + 1` when an invariant is
+    re-established).  f must be a module-level function: a pure function of its two arguments."""
+    import hashlib
+    f, init, xs, i = args[:4]
+    extra = list(args[4:])          # further (fixed) arguments of the step function: f(acc, x, *extra)
+    if isinstance(xs, (SOpt, SChoice)):
+        xs = interp.resolve(xs)
+    if isinstance(i, (SOpt, SChoice)):
+        i = interp.resolve(i)
+    if not isinstance(xs, SList):
+        acc = init
+        items = list(interp.iterate(xs))
+        if isinstance(i, Sym):
+            raise Unsupported('prefix_fold: symbolic index into a concrete sequence')
+        for x in items[:i]:
+            acc = interp.call(f, [acc, x] + extra, {})
+        return acc
+    if not isinstance(f, types.FunctionType) or f.__closure__:
+        raise Unsupported('prefix_fold: the step function must be a module-level function')
+    if isinstance(i, int) and i == 0:
+        return init
+    sig, shape = _fold_sig(init)
+    for e in extra:
+        part, terms = _ghost_arg(e)
+        sig += '|%s(%s)' % (part, ','.join(z3.simplify(t).sexpr() for t in terms))
+    name = 'fold.%s.%s' % (f.__name__, hashlib.sha1(('%s:%s|%s|%s' % (f.__module__, f.__qualname__, xs.uid, sig))
+                                                    .encode()).hexdigest()[:10])
+    st = interp.st
+    t = to_z3(i)
+    value = _fold_value(interp, name, shape, t)
+    if st.no_fork:
+        return value         # inside a quantifier body: the term only
+    done = st.ghost.setdefault('@fold-unfolded', set())
+    key = (name, z3.simplify(t).sexpr())
+    if key in done:
+        return value
+    if not st.scopes:
+        done.add(key)
+    st.assume(z3.Implies(t == 0, to_z3(_fold_equal(interp, value, init))))
+    if st.must_hold(z3.And(t >= 1, t <= xs.length)):
+        prev_t = z3.simplify(t - 1)
+        if z3.is_int_value(prev_t) and prev_t.as_long() == 0:
+            prev = init
+        else:
+            prev = _fold_value(interp, name, shape, prev_t)
+            st.assume(z3.Implies(prev_t == 0, to_z3(_fold_equal(interp, prev, init))))
+        x = slist_elem(interp, xs, prev_t)
+        if isinstance(prev, SMap):
+            prev = prev.copy(interp)
+        nxt = interp.call(f, [prev, x] + extra, {})
+        st.assume(_fold_equal(interp, value, nxt))
+    return value
+
+
+# ============================================================================ recursive spec functions
+
+def _ghost_arg(a):
+    """(name part, terms) identifying an argument of a ghost function."""
+    if isinstance(a, SMap):
+        return 'map', a.terms()
+    if isinstance(a, SList):
+        if a.ident is None:
+            raise Unsupported('recursive spec function: a derived list (slice, concatenation, ...) as argument')
+        return 'list:' + a.ident[0], list(a.ident[1])
+    if isinstance(a, Opaque):
+        t = term_of_value(a)
+        if t is None:
+            if a._pv_index:
+                return 'obj:' + a._pv_uid, list(a._pv_index)
+            return 'obj:' + a._pv_uid, []
+        from .api import universe_of
+        return universe_of(a._pv_iface), [t]
+    if isinstance(a, (SOpt, SChoice)):
+        raise Unsupported('recursive spec function: optional / choice argument (resolve it first)')
+    t = term_of_value(a)
+    if t is not None:
+        return 's', [t]
+    if a is None or isinstance(a, (enum.Enum, types.FunctionType, type)):
+        return 'c:%s' % (getattr(a, '__qualname__', None) or repr(a)), []
+    raise Unsupported('recursive spec function: argument %r' % (a,))
+
+
+def call_recursive_spec(interp, fn, args, kwargs):
+    """A boolean spec function marked ``@recursive`` (contracts/common.py): its value is the application of an
+    uninterpreted predicate to the arguments; the defining equation (the body, with the recursive calls left as
+    applications) is assumed for the arguments of every call made outside quantifier bodies."""
+    if kwargs:
+        raise Unsupported('recursive spec function called with keyword arguments')
+    st = interp.st
+    args = [interp.resolve(a) if isinstance(a, (SOpt, SChoice)) else a for a in args]
+    parts = [_ghost_arg(a) for a in args]
+    terms = [t for _, ts in parts for t in ts]
+    name = 'rec.%s@%s' % (fn.__qualname__, '|'.join(p for p, _ in parts))
+    kind = getattr(fn, '_pv_recursive', 'bool')
+    rsort = {'bool': z3.BoolSort, 'str': z3.StringSort, 'int': z3.IntSort}[kind if kind in ('str', 'int') else 'bool']()
+    u = z3.Function(name, *([t.sort() for t in terms] + [rsort])) if terms else None
+    app = u(*terms) if terms else z3.Const(name, rsort)
+    active = st.ghost.setdefault('@rec-active', [])
+    done = st.ghost.setdefault('@rec-unfolded', set())
+    key = (name, tuple(z3.simplify(t).sexpr() for t in terms))
+    if fn in active or st.no_fork or key in done:
+        return wrap(app)
+    if not st.scopes:
+        done.add(key)
+    active.append(fn)
+    try:
+        body = interp.call_real_function(fn, args, {})
+        if isinstance(body, (SOpt, SChoice)):
+            body = interp.resolve(body)
+        if kind not in ('str', 'int'):
+            body = interp.truth(body)
+    finally:
+        active.pop()
+    bt = to_z3(body)
+    if bt.sort() != rsort:
+        raise Unsupported('recursive spec function %s: result is not of the declared kind' % fn.__qualname__)
+    st.assume(app == bt)
+    return wrap(app)
 
 
 def m_is_opaque(interp, args, kwargs):
-    return isinstance(args[0], Opaque)
+    x = args[0]
+    if isinstance(x, (SOpt, SChoice)):
+        x = interp.resolve(x)
+    return isinstance(x, Opaque)
 
 
 def _count_reduce_site(interp):
